@@ -49,7 +49,7 @@ BASE = dict(
     tm=False, elitism=True, mutate_elite=True, tsize=2, mut="mixed", ckpt=None, overwrite=False,
     episode_steps=10, eval_steps=3, eval_loop=1, target=None, seed=0, strict=True, fault=None,
     ep_len=7, via="build", timeout=120, ls_spread=0,
-    budgets=None, start_steps=0, start_spread=0, start_hist=False, bs_spread=0, lr_spread=0.0, ep_mode="stagger", squash=False,
+    budgets=None, start_steps=0, start_spread=0, start_hist=False, bs_spread=0, lr_spread=0.0, ep_mode="stagger", squash=False, indices=None,
 )
 
 LOOP_ALGOS = {
@@ -397,6 +397,10 @@ def execute(cfg: dict) -> dict:
         from agilerl.components.multi_agent_replay_buffer import MultiAgentReplayBuffer
         from agilerl.components.replay_buffer import MultiStepReplayBuffer, PrioritizedReplayBuffer, ReplayBuffer
         pop, kind = _build_population(cfg, E)
+        if cfg["indices"]:
+            # a population as a user supplies it: indices unordered / non-contiguous / not starting at 0
+            for a, ix in zip(pop, cfg["indices"]):
+                a.index = int(ix)
         for a in pop:
             a.verif_env = 0
         loop, algo, fam = cfg["loop"], cfg["algo"], cfg["family"]
@@ -890,9 +894,27 @@ def gen_cases(rng, tier: str) -> list[dict]:
     add(loop="off", algo="DQN", num_envs=2, learn_step=2, tm=True, mutate_elite=False, mut="params", pop=3)
     add(loop="off", algo="DDPG", num_envs=4, learn_step=1, tm=True, mut="hp", cap=32)
     add(loop="off", algo="TD3", num_envs=2, learn_step=7, tm=True, elitism=False)
-    for mem in ["per", "nstep", "per_nstep"]:
-        add(loop="off", algo="RainbowDQN", mem=mem, num_envs=rng.choice([1, 2, 3]), learn_step=rng.choice([1, 2, 4]),
-            tm=rng.random() < 0.5, mutate_elite=False)
+    # every memory combination x both learn-scheduling branches of train_off_policy (num_envs < learn_step,
+    # num_envs == learn_step, num_envs > learn_step), each run long enough to learn
+    for mem in ["uniform", "per", "nstep", "per_nstep"]:
+        for ne, ls in ((rng.choice([1, 2]), rng.choice([3, 5])), (rng.choice([2, 3]), None), (4, rng.choice([1, 2, 3]))):
+            add(loop="off", algo="RainbowDQN", mem=mem, num_envs=ne, learn_step=ls or ne, evo_steps=20, max_steps=40,
+                batch_size=4, tm=rng.random() < 0.3, mutate_elite=False, bs_spread=rng.choice([0, 1]),
+                via=rng.choice(["build", "create_population"]))
+    # --- populations as users supply them: indices unordered, non-contiguous, starting above 0, the largest index
+    #     first (a saved elite put in front of fresh agents); tournament + mutation on, several generations
+    for lp, algo, idx in (("off", "DQN", [3, 0, 1, 2]), ("on", "PPO", [2, 1, 0]), ("off", "DDPG", [7, 2, 5]),
+                          (rng.choice(["bandit", "offline", "maoff"]), None, rng.choice([[9, 4, 5], [5, 1, 0, 3], [4, 5, 6]]))):
+        kw = dict(loop=lp, algo=algo or {"bandit": "NeuralUCB", "offline": "CQN", "maoff": "MADDPG"}[lp], indices=idx,
+                  pop=len(idx), tm=True, elitism=True, mut="none", mutate_elite=rng.random() < 0.5, tsize=2,
+                  evo_steps=10, max_steps=40, learn_step=2 if lp != "on" else 4)
+        if lp == "maoff":
+            kw["kind"] = "box"
+        if lp == "offline":
+            kw.update(evo_steps=4, max_steps=16)
+        if lp == "bandit":
+            kw.update(episode_steps=5, evo_steps=5, max_steps=20, eval_steps=3)
+        add(**kw)
     # --- on-policy
     for kind in ["discrete", "box", "multidiscrete", "multibinary"]:
         ne = rng.choice([1, 2, 4])
@@ -1055,6 +1077,11 @@ def gen_cases(rng, tier: str) -> list[dict]:
         else:
             kw.update(episode_steps=rng.choice([4, 6, 10]), evo_steps=rng.choice([8, 10, 20]), max_steps=rng.choice([20, 30, 40]),
                       learn_step=rng.choice([1, 2, 3]), eval_steps=3)
+        if kw["tm"] and rng.random() < 0.4:
+            ids = rng.sample(range(0, 12), kw["pop"])
+            if rng.random() < 0.5:
+                ids.sort(reverse=True)
+            kw["indices"] = ids
         kw["ep_mode"] = rng.choice(["stagger", "stagger", "reverse", "last-only", "middle-only", "first-only"])
         kw["ep_len"] = rng.choice([2, 3, 5, 7])
         kw["via"] = rng.choice(["build", "create_population"])
@@ -1194,6 +1221,10 @@ def tags_of(res: dict) -> list[str]:
     if any(len({s["after"] for s in g["slots"]}) > 1 for g in res.get("gens", [])):
         t.append("step-counters-diverged")
     t.append(f"population-via-{c['via']}")
+    if c.get("indices"):
+        t.append("user-supplied-indices")
+        if c["indices"][-1] != max(c["indices"]):
+            t.append("largest-index-not-last")
     if ne and ne > 1:
         t.append(f"episodes-end-{c['ep_mode']}")
     if c.get("squash") and c["algo"] == "PPO":
